@@ -204,7 +204,9 @@ func monitorC13(c *Ctx, h *SHistory) {
 		}
 		pos[k] = i + 1
 	}
-	if pos["dcpclose"] > 0 && (pos["dcpclose"] < pos["closereq"] || pos["dcpclose"] < pos["AfterStreamStop"] || pos["cliclose"] < pos["dcpclose"] || pos["metasave"] > pos["BeforeStreamStop"]) {
+	before := func(a, b string) bool { return pos[a] == 0 || pos[b] == 0 || pos[a] < pos[b] } // both present: a first
+	if pos["dcpclose"] > 0 && !(before("closereq", "dcpclose") && before("AfterStreamStop", "dcpclose") && pos["dcpclose"] < pos["cliclose"] &&
+		before("metasave", "BeforeStreamStop") && before("metasave", "dcpclose")) {
 		c.Violate(class("teardown-order"), fmt.Sprintf("Close() in state %s: order of the teardown calls: %v", state, kinds(h.Outs[idx])), rep)
 	}
 	// durable: automatic checkpointing and a final save that succeeds
@@ -213,8 +215,10 @@ func monitorC13(c *Ctx, h *SHistory) {
 		for i := 0; i < idx; i++ {
 			op := h.Ops[i]
 			switch op.Kind {
-			case "open", "rebopen":
-				want = map[uint16]uint64{} // positions settled but not stored before a rebalance are re-delivered after it
+			case "open", "rebclose", "rebopen":
+				// the close half of a rebalance forgets the positions of the session that were settled but not yet stored:
+				// they are delivered again after the reopen (at-least-once), nothing tracks them any more
+				want = map[uint16]uint64{}
 			case "ack":
 				for _, o := range h.Outs[i] {
 					if o.Kind == "track" && o.Off.Seq > want[o.Vb] {
@@ -406,10 +410,15 @@ func init() {
 			case <-time.After(3 * time.Second):
 			}
 		}
-		_, _, _, opens0 := d.Client.Counts()
 		start := time.Now()
 		d.Dcp.Close()
 		res := c13WinRes{Kind: a.Kind}
+		// the teardown waits for the half of the rebalance that is running: it is let go 50 ms after Close()
+		time.Sleep(50 * time.Millisecond)
+		close(release)
+		if a.Kind == "inside-close" {
+			d.Hand.Resume()
+		}
 		select {
 		case r := <-d.startDone:
 			res.Result = r
@@ -417,11 +426,8 @@ func init() {
 			res.Result = "hung"
 		}
 		res.Ms = time.Since(start).Milliseconds()
-		close(release)
-		if a.Kind == "inside-close" {
-			d.Hand.Resume()
-		}
-		time.Sleep(400 * time.Millisecond) // longer than the rebalance delay: does the armed timer reopen streams after the shutdown?
+		_, _, _, opens0 := d.Client.Counts() // what the reopen half that was running has requested is closed again by the teardown
+		time.Sleep(400 * time.Millisecond)   // longer than the rebalance delay: does the armed timer reopen streams after the shutdown?
 		var opens1 int
 		_, res.DcpCloses, res.CliCloses, opens1 = d.Client.Counts()
 		res.OpensAfter = opens1 - opens0
